@@ -47,6 +47,9 @@ CHECKS['C14'] = ('property-based testing over generated call histories (sequence
 CHECKS['C09'] = ('property-based testing: datasets x resume splits, reference statistics recomputed from the check\'s own interpreter run and moving-average fold',
   'Generated models (1..2 signatures) x calibration-requiring recipes x datasets of 1..6 samples of different magnitudes x drawn cut points: every runtime statistic returned by calibrate() must equal (rtol 1e-5) the 0.95 moving average, in dataset order with the first sample initialising, of the per-sample min/max the check reads from its own float interpreter; every constant statistic must be a true per-tensor or single-axis min/max (the kernel axis for channel-wise weights); calibrating in resumed sessions must equal the single pass (rtol 1e-6) and leave the previous result deep-equal to its snapshot.',
   'LiteRT float interpreter with preserved tensors trusted; EMA recomputed in float64.', 'DESIGN.md 4 C09')
+CHECKS['C15'] = ('property-based testing: sharing-biased model generator, byte-level buffer/tensor consistency oracle + per-operand mode oracle',
+  'Generated models built around sharing (one constant tensor with several consumers, several tensors on one buffer within and across subgraphs, converter-style de-duplication) x recipes giving the sharers equal, different or no quantization: quantize() may raise; if it returns, every tensor referencing a buffer must have a dtype whose implied byte length equals the buffer length and equal parameters, every original constant must still denote its values within one step (bit-equal when untouched), and every consumer must read the operand class its mode prescribes (C03 oracle), so a float consumer never reads integer bytes and vice versa.',
+  'Rejections are counted per exception bucket, not judged (totality is C08).', 'DESIGN.md 4 C15')
 NOT_APPLICABLE = {}
 
 def main():
